@@ -173,6 +173,7 @@ def _as_poly(x):
 class StencilResult(object):
     def __init__(self, value, calls, dim, hsyms, errors=None):
         self.value, self.calls, self.dim, self.hsyms = value, calls, dim, hsyms
+        self.alternatives = []      # [(decisions text, StencilResult)]: other outcomes of branches on the values of f
 
 
 class StencilRunner(object):
@@ -199,9 +200,38 @@ class StencilRunner(object):
             hsyms = ['h%d' % k for k in range(dim)]
             x = Arr((dim,), xs)
             h = Arr((dim,), hs)
-        calls = []
         bic = self.bicomplex
         xatoms = {'x'} if dim is None else {'x%d' % k for k in range(dim)}
+        # A difference function may branch on the *values* of f (isnan tests ..): every outcome is interpreted; the
+        # result with the most evaluations is the primary one, the others are kept as alternatives so that a rule
+        # about the set of evaluation points can judge each of them.
+        from .dv import Explorer
+        ex = Explorer(max_paths=16)
+        results = []
+
+        owner = getattr(fn, 'interp', None) or I          # the closure is interpreted by the interpreter that made it
+
+        def once(oracle):
+            saved = owner.branch_oracle
+            owner.branch_oracle = oracle
+            try:
+                return self._run_once(fn, dim, x, h, xs, hsyms, xatoms)
+            finally:
+                owner.branch_oracle = saved
+        paths = ex.run(once)
+        for decisions, res, exc in paths:
+            if exc is not None:
+                raise AnalysisError('difference function raises %s on a branch that depends on the values of f' % exc.exc_name)
+            results.append((', '.join('%s=%s' % (d[1][:40], d[0]) for d in decisions), res))
+        results.sort(key=lambda t: -len(t[1].calls))
+        primary = results[0][1]
+        primary.alternatives = results[1:]
+        return primary
+
+    def _run_once(self, fn, dim, x, h, xs, hsyms, xatoms):
+        I = self.interp
+        bic = self.bicomplex
+        calls = []
 
         def user_f(arg, *extra, **kw):
             if extra or kw:
